@@ -405,6 +405,40 @@ func (b *Builder) OpSP1() bool {
 	return true
 }
 
+// OpFCSP1 forms a v1 contract whose proof window opens in this very block and proves it in the
+// same block (formed AND resolved in one block: the element never outlives the block).
+func (b *Builder) OpFCSP1() bool {
+	if !b.v1OK() {
+		return false
+	}
+	e, ok := b.pickSC()
+	if !ok {
+		return false
+	}
+	h := b.childHeight()
+	renter, host := types.Siacoins(10), types.Siacoins(5)
+	payout := taxAdjustedPayout(renter.Add(host))
+	if e.SiacoinOutput.Value.Cmp(payout) < 0 {
+		return false
+	}
+	fc := types.FileContract{
+		Filesize: 0, WindowStart: h, WindowEnd: h + 2, Payout: payout,
+		UnlockHash:         b.W.Addr,
+		ValidProofOutputs:  []types.SiacoinOutput{{Address: b.W.Addr, Value: renter}, {Address: b.W.Other, Value: host}},
+		MissedProofOutputs: []types.SiacoinOutput{{Address: b.W.Addr, Value: renter}, {Address: b.W.Other, Value: host.Div64(2)}, {Address: types.VoidAddress, Value: host.Sub(host.Div64(2))}},
+	}
+	binary.LittleEndian.PutUint64(fc.FileMerkleRoot[:], b.salt+uint64(len(b.v1))+77)
+	txn := types.Transaction{
+		SiacoinInputs:  []types.SiacoinInput{{ParentID: e.ID, UnlockConditions: b.uc()}},
+		SiacoinOutputs: []types.SiacoinOutput{{Address: b.W.Addr, Value: e.SiacoinOutput.Value.Sub(payout)}},
+		FileContracts:  []types.FileContract{fc},
+	}
+	b.signV1(&txn)
+	b.v1 = append(b.v1, txn, types.Transaction{StorageProofs: []types.StorageProof{{ParentID: txn.FileContractID(0)}}})
+	b.Ops = append(b.Ops, "fcsp1")
+	return true
+}
+
 // ---- v2 operations
 
 func (b *Builder) OpSC2() bool {
@@ -694,6 +728,8 @@ func (b *Builder) Do(op string) bool {
 		return b.OpRev1(0)
 	case "rev1b":
 		return b.OpRev1(1)
+	case "fcsp1": // contract formed and proven in one block
+		return b.OpFCSP1()
 	case "rev1f": // same-window revision of the FIRST member of a shared expiration list
 		return b.OpRev1First()
 	case "sp1":
